@@ -4,6 +4,7 @@ C14 — Rule flag parsing accounts for every token or rejects the line.
 -/
 import LA.Model.Flags
 import LA.Proofs.FlagsLine
+import LA.Proofs.StateFacts
 
 namespace LA.Flags
 open LA LA.Rule
@@ -360,3 +361,9 @@ example : (parseArgs [ofString "-w", ofString "/etc/passwd", ofString "-p", ofSt
   decide +kernel
 
 end LA.Flags
+
+/-! ### the code keeps nothing between calls that the model does not have -/
+
+/-- Packages rule and rule/flags write package-level variables only in the five table builders, which nothing but `init`
+mentions (regenerated list, see LA.Proofs.StateFacts): Parse, Build and ToCommandLine are functions of their arguments. -/
+theorem C14_rule_packages_keep_nothing_between_calls : LA.StateFacts.ofPkg "rule" = LA.StateFacts.ruleTableBuilders ∧ LA.StateFacts.ofPkg "rule/flags" = [] := by decide
